@@ -1324,8 +1324,12 @@ func (pc *PeerConnection) SetRemoteDescription(desc SessionDescription) error {
 					transceiver.setDirection(RTPTransceiverDirectionRecvonly)
 				}
 			case direction == RTPTransceiverDirectionSendonly:
-				if transceiver.Direction() == RTPTransceiverDirectionInactive {
+				switch transceiver.Direction() {
+				case RTPTransceiverDirectionInactive, RTPTransceiverDirectionSendrecv:
 					transceiver.setDirection(RTPTransceiverDirectionRecvonly)
+				case RTPTransceiverDirectionSendonly:
+					transceiver.setDirection(RTPTransceiverDirectionInactive)
+				default:
 				}
 			}
 
